@@ -74,6 +74,8 @@ var trList = []trFunc{
 	{"CodeTableOps", "table", "Table.DelRewriter", "Table.DelRewriter", true, false, []string{"recv"}, nil, "", nil, nil, ""},
 	{"CodeTableOps", "table", "Table.DelAggregator", "Table.DelAggregator", false, false, []string{"recv"}, nil, "", nil, nil, ""},
 	{"CodeTableOps", "table", "Table.DelRoute", "Table.DelRoute", false, false, []string{"recv"}, nil, "", nil, nil, ""},
+	{"CodeRouteOps", "route", "baseRoute.addDestination", "baseRoute.addDestination", false, false, []string{"recv"}, nil, "", nil, nil, ""},
+	{"CodeRouteOps", "route", "baseRoute.delDestination", "baseRoute.delDestination", false, false, []string{"recv"}, nil, "", nil, nil, ""},
 	{"CodeGuards", "destination", "New", "destination_New_guards", true, false, nil, nil, "", nil, nil, "guards"},
 	{"CodeGuards", "route", "NewGrafanaNet", "NewGrafanaNet_guards", true, false, nil, nil, "", nil, nil, "guards"},
 	{"CodeCfg", "cfg", "InitAggregation", "InitAggregation", false, true, nil, nil, "", nil, nil, ""},
@@ -97,7 +99,7 @@ var leanTypes = map[string]string{
 	"[]byte": "Bytes", "string": "Bytes", "[][]byte": "List Bytes", "bool": "Bool", "int": "Int", "uint32": "Int", "int64": "Int",
 	"uint16": "Int", "uint": "Int", "float64": "F64", "error": "Err",
 	"*Matcher": "Matcher", "Matcher": "Matcher", "*Table": "Table", "*SendAllMatch": "SendAllMatch", "*SendFirstMatch": "SendFirstMatch",
-	"*Destination": "Destination", "*baseRoute": "baseRoute", "*ConsistentHasher": "ConsistentHasher", "*ConsistentHashing": "ConsistentHashing", "*Aggregator": "Aggregator", "*keepSafe": "keepSafe", "RW": "RW",
+	"*Destination": "Destination", "*baseRoute": "baseRoute", "*dest.Destination": "DestI", "baseCfgExtender": "(Matcher × List DestI → BaseConfig)", "*ConsistentHasher": "ConsistentHasher", "*ConsistentHashing": "ConsistentHashing", "*Aggregator": "Aggregator", "*keepSafe": "keepSafe", "RW": "RW",
 	"time.Duration": "Int", "matcher.Matcher": "MatcherArgs", "GrafanaNetConfig": "GrafanaNetConfig",
 	"*regexp.Regexp": "Option RegexpI", "Config": "Config", "[]interface{}": "List PyVal", "*Pickle": "PickleP",
 	"*toki.Scanner": "Scanner", "*toki.Result": "TokV", "table.Interface": "TableI", "*destination.Destination": "DestP",
@@ -118,7 +120,7 @@ func ignoredCall(s string) bool {
 }
 
 // methods whose call is an event of the trace
-var effectMethods = map[string]bool{"IncNumInvalid": true, "Inc": true, "Add": true, "AddAggregator": true, "AddBlacklist": true, "AddRewriter": true}
+var effectMethods = map[string]bool{"Run": true, "IncNumInvalid": true, "Inc": true, "Add": true, "AddAggregator": true, "AddBlacklist": true, "AddRewriter": true}
 
 // methods of another component that have effects of their own: the callee's trace is spliced in (the interface record
 // gives them the type `... -> Res value`)
@@ -468,6 +470,10 @@ func (c *trCtx) call(x *ast.CallExpr) string {
 	case *ast.Ident:
 		if l, ok := c.pkgFns[f.Name]; ok {
 			return l + " " + c.args(x.Args)
+		}
+		if c.declared[f.Name] {
+			// a function-valued parameter
+			return lid(f.Name) + " " + c.args(x.Args)
 		}
 		// an untranslated function of the same package: a field of Env
 		if !c.f.env {
